@@ -808,8 +808,8 @@ def explore(ck, cases, oracle, xrun):
 
 
 def main():
-    ck = vlib.Check(PROP, pkg=PKG, props="Proofs.Props.C07", driver=EXE,
-                    lemma_files=["Proofs/Lemmas/Dist.lean", "Proofs/Lemmas/Conv.lean", "Proofs/Lemmas/Los.lean"],
+    ck = vlib.Check(PROP, pkg=PKG, props="Proofs.Props.C07", more_props=["Proofs.Props.C07Conv"], driver=EXE,
+                    lemma_files=["Proofs/Lemmas/Dist.lean", "Proofs/Lemmas/Conv.lean", "Proofs/Lemmas/Los.lean", "Proofs/Lemmas/Contract.lean"],
                     model_files=["GenReal/Geodesy.lean", "GenReal/Constants.lean"],
                     trusted=["tools/py2lean (translator): the emitted Lean term is the exact real-number reading of the Python expression "
                              "(np.arctan2 y x as Complex.arg ⟨x,y⟩, the while loop of cart2geodetic as whileLoop <stop test> <iteration map>, masked "
@@ -817,8 +817,10 @@ def main():
                              "numpy on generated points (1e-9 relative on well-conditioned points)",
                              "floating-point evaluation, numpy broadcasting / masking / np.any over arrays are modelled pointwise, not verified "
                              "(scalar / array / broadcast agreement is exercised by the harness)",
-                             "the stated accuracy (1 cm, 1e-7 deg) and the convergence of the cart2geodetic iteration are VALIDATED by the oracle sweep "
-                             "(mpmath, 40 digits), not proved; optional hint arguments (lat0, lon0, za0, aa0, ppc) are modelled as absent",
+                             "convergence of the cart2geodetic iteration (contraction 1/50, <= 9 passes) and the 1 cm / 1e-7 deg accuracy of "
+                             "cart2geodetic(geodetic2cart(.)) are PROVED over the reals (Proofs/Props/C07Conv.lean: e^2 <= 0.012, |lat| <= 88 deg, "
+                             "h >= -a/300); the same accuracy in FLOATING POINT and the other composed routes are validated by the oracle sweep "
+                             "(mpmath, 40 digits) only; optional hint arguments (lat0, lon0, za0, aa0, ppc) are modelled as absent",
                              "pole / zenith special cases of the position+LOS functions are translated but carry no theorem"],
                     assumptions=["|lat| <= 88 deg, any lon, heights -10 km .. 1000 km, all six ellipsoid models of ellipsoidmodels",
                                  "zenith angles in [0.01, 179.99] deg, |lat| <= 88 deg for the position+LOS round trip"])
